@@ -869,8 +869,8 @@ def bfs(prop, tier, depth, wall_cap=None):
 
 
 def run(prop, tier):
-    depth = {"C02": 3, "C19": 3, "C07": 3, "C05": 2}[prop] if tier == "quick" else {"C02": 4, "C19": 4, "C07": 4, "C05": 3}[prop]
-    agg = bfs(prop, tier, depth, wall_cap=None if tier == "quick" else 1500)
+    depth = {"C02": 3, "C19": 3, "C07": 3, "C05": 2}[prop] if tier == "quick" else {"C02": 5, "C19": 5, "C07": 4, "C05": 3}[prop]
+    agg = bfs(prop, tier, depth, wall_cap=None if tier == "quick" else 240)  # a new level is started only within the cap
     agg["rule"] = RULES[prop] + "; depth = %d operations (complete); non-trivial = states with a checkpoint and at least one pending change" % agg["depth_completed"]
     agg["exhaustive"] = "capped" not in agg
     by = {}
